@@ -22,18 +22,34 @@ TSAN_ENV = ('halt_on_error=0:second_deadlock_stack=1:history_size=4:'
 FRAME_RE = re.compile(r'^\s*#(\d+) 0x[0-9a-f]+ in (\S+) (\S+)')
 
 
+INLINE_HELPERS = ('uatomic_', 'ueventfd_', 'uring_', 'ulist_', 'uchain_',
+                  'ubase_', 'urefcount_use', 'urefcount_single')
+
+
 def _first_repo_frame(lines, repo):
-    """first stack frame whose source is in the repo (not harness, not libc)"""
+    """first stack frame whose source is in the repo (not harness, not libc,
+    not a tiny inline helper), qualified by its caller so that a recorded
+    finding designates one call site"""
+    found = None
     for ln in lines:
         m = FRAME_RE.match(ln)
         if not m:
+            if found and ln.strip() == '':
+                break
             continue
         func, loc = m.group(2), m.group(3)
         if '/verif/' in loc:
+            if found:
+                break
             continue
         if repo in loc or '/include/upipe' in loc or '/lib/up' in loc:
-            return func, loc
-    return None, None
+            if func.startswith(INLINE_HELPERS):
+                continue
+            if found is None:
+                found = (func, loc)
+            elif func != found[0]:
+                return '%s@%s' % (found[0], func), found[1]
+    return found if found else (None, None)
 
 
 def _first_frame_any(lines):
@@ -94,6 +110,15 @@ def parse_ubsan(stderr_text):
 
 TSAN_BY_DESIGN = ('uring_',)
 
+# races identified by functions present anywhere in the two stacks, so that
+# one defect has one key whatever the top frames are
+TSAN_RULES = [
+    ('xfer-mgr-freed-while-detach-message-is-being-pushed',
+     {'upipe_xfer_mgr_free'}, {'upipe_xfer_mgr_detach'}),
+    ('queue-source-freed-while-ref-end-message-is-being-pushed',
+     {'upipe_qsrc_free'}, {'upipe_qsrc_no_ref'}),
+]
+
 
 def parse_tsan(stderr_text, repo):
     """ThreadSanitizer report blocks -> list of (key, summary, by_design)"""
@@ -131,6 +156,15 @@ def parse_tsan(stderr_text, repo):
             if f is None and st:
                 f = st[0][0]
             funcs.append(f or '?')
+        allf = [set(f for f, _ in st) for st in tops[:2]]
+        rule = None
+        if len(allf) == 2:
+            for name, a, b in TSAN_RULES:
+                if (a <= allf[0] and b <= allf[1]) or (a <= allf[1] and b <= allf[0]):
+                    rule = name
+        if rule:
+            out.append(('tsan:%s:%s' % (kind, rule), ' / '.join(funcs), False))
+            continue
         by_design = kind == 'data-race' and (any(f.startswith(TSAN_BY_DESIGN) for f in funcs) or
                                               # one side inside uninstrumented libev (fd bookkeeping vs close)
                                               ('<null>' in funcs and any(f in ('ueventfd_clean',) for f in funcs)))
